@@ -8,6 +8,7 @@ package main
 import (
 	"encoding/json"
 	"fmt"
+	"strings"
 
 	"verif/csnet"
 	"verif/kv"
@@ -19,13 +20,13 @@ import (
 )
 
 type pruneCase struct {
-	L, K   uint64
-	Change uint64 // height whose commit changes the validator set (0 = never)
-	Twice  bool   // prune, grow the chain by one block, prune again
+	L, K    uint64
+	Changes []uint64 // heights whose commit changes the validator set (none, one or two of them)
+	Twice   bool     // prune, grow the chain by one block, prune again
 }
 
 func (c pruneCase) String() string {
-	return fmt.Sprintf("L=%d K=%d change@%d twice=%v", c.L, c.K, c.Change, c.Twice)
+	return fmt.Sprintf("L=%d K=%d change@%v twice=%v", c.L, c.K, c.Changes, c.Twice)
 }
 
 func pruneCases(quick bool) []pruneCase {
@@ -36,10 +37,19 @@ func pruneCases(quick bool) []pruneCase {
 	}
 	for L := uint64(1); L <= maxL; L++ {
 		for K := uint64(1); K <= maxK; K++ {
-			for ch := uint64(0); ch <= L; ch++ {
-				out = append(out, pruneCase{L, K, ch, false})
-				if !quick || ch <= 1 {
-					out = append(out, pruneCase{L, K, ch, true})
+			// every set of at most two change heights: none, one (before / at the edge of / inside the window), two
+			// (both outside, one on each side of the window edge, both inside)
+			sets := [][]uint64{nil}
+			for a := uint64(1); a <= L; a++ {
+				sets = append(sets, []uint64{a})
+				for b := a + 1; b <= L; b++ {
+					sets = append(sets, []uint64{a, b})
+				}
+			}
+			for _, chs := range sets {
+				out = append(out, pruneCase{L, K, chs, false})
+				if !quick || len(chs) == 0 || (len(chs) == 1 && chs[0] <= 1) || (len(chs) == 2 && K < L && chs[0] <= L-K && chs[1] > L-K) {
+					out = append(out, pruneCase{L, K, chs, true})
 				}
 			}
 		}
@@ -126,17 +136,17 @@ func runPruneCase(c pruneCase) pruneResult {
 	w.n = f.NewNode(w.self, 0)
 	defer w.n.Close()
 	w.bs = blockchain.NewBlockStore(kv.NewCopyDB())
-	if c.Change > 0 {
-		// the commit of height Change returns a changed validator list (validator 0 doubles its power)
+	for k, ch := range c.Changes {
+		// the commit of height ch returns a changed validator list (validator 0's power becomes 2, then 3)
 		var nv []*types.Validator
 		for i, v := range f.Vals {
 			cp := *v
 			if i == 0 {
-				cp.VotingPower = 2
+				cp.VotingPower = int64(2 + k)
 			}
 			nv = append(nv, &cp)
 		}
-		w.n.App.NextVals[c.Change] = nv
+		w.n.App.NextVals[ch] = nv
 	}
 	for w.h <= c.L {
 		w.commit()
@@ -146,6 +156,14 @@ func runPruneCase(c pruneCase) pruneResult {
 		f    func() bool
 	}
 	var probes []probe
+	valHash := map[uint64]string{} // height -> hash of the validator set recorded for it before any pruning
+	valsAt := func(h uint64) string {
+		v, _, err := cs.LoadValidators(w.n.DB, h)
+		if err != nil || v == nil || v.Size() == 0 {
+			return ""
+		}
+		return fmt.Sprintf("%x", v.Hash())
+	}
 	window := func(L, K uint64) (lo uint64) {
 		if K >= L {
 			return 1
@@ -163,6 +181,7 @@ func runPruneCase(c pruneCase) pruneResult {
 				probe{fmt.Sprintf("LoadBlockPart(%d,0)", h), func() bool { return w.bs.LoadBlockPart(h, 0) != nil }},
 				probe{fmt.Sprintf("LoadTxsResult(%d)", h), func() bool { r, err := w.bs.LoadTxsResult(h); return err == nil && r != nil }},
 				probe{fmt.Sprintf("LoadValidators(%d)", h), func() bool { v, _, err := cs.LoadValidators(w.n.DB, h); return err == nil && v != nil && v.Size() > 0 }},
+				probe{fmt.Sprintf("LoadValidators(%d):same-set-as-before-pruning", h), func() bool { return valsAt(h) == valHash[h] }},
 				probe{fmt.Sprintf("LoadConsensusParams(%d)", h), func() bool { _, err := cs.LoadConsensusParams(w.n.DB, h); return err == nil }},
 			)
 			if h < L {
@@ -182,6 +201,9 @@ func runPruneCase(c pruneCase) pruneResult {
 			}
 		}
 	}
+	for h := uint64(1); h <= c.L+1; h++ {
+		valHash[h] = valsAt(h)
+	}
 	build(c.L)
 	check("no pruning (harness self-check)")
 	if len(res.Missing) > 0 {
@@ -194,6 +216,7 @@ func runPruneCase(c pruneCase) pruneResult {
 		check("ConsensusState.DeleteHistoricalData")
 		if c.Twice {
 			w.commit()
+			valHash[c.L+2] = valsAt(c.L + 2)
 			build(c.L + 1)
 			w.bs.DeleteHistoricalData(c.K)
 			w.n.CS.DeleteHistoricalData(c.K)
@@ -245,6 +268,9 @@ func runPruning(r *vk.Run) (cases, probesFailed int) {
 			fam := m
 			if k := indexByte(m, '('); k > 0 {
 				fam = m[:k] + m[indexByte(m, ')')+1:]
+			}
+			if k := strings.Index(fam, ": panic"); k > 0 {
+				fam = fam[:k] + ": panics"
 			}
 			r.Violation("retained-record-missing:"+fam, fmt.Sprintf("%s: %s is no longer readable although height is inside the retention window", c, m), map[string]interface{}{"case": c.String(), "probe": m})
 		}
